@@ -235,12 +235,16 @@ ChanAlts(long) ==
   \o [i \in DOMAIN ChanOpts |-> Alt("one.cli." \o ChanOpts[i], "C16.channel_equiv", ChanOne(i, "cli"), 0, <<>>)]
   \o [i \in DOMAIN ChanOpts |-> Alt("one.both." \o ChanOpts[i], "C16.cli_wins", ChanOne(i, "both"), 0, <<>>)]
   \o [k \in 1..(IF long THEN 40 ELSE 8) |-> Alt("mix." \o ToString(k), "C16.channel_equiv", ChanMix(k), k, <<>>)]
+  \* an empty command-line value means "not given": the YAML value stays in force
+  \o <<[Alt("yaml.plus.empty.cli", "C16.channel_equiv", <<>>, 0, <<>>) EXCEPT !.emptycli = TRUE],
+       [Alt("mix.plus.empty.cli", "C16.channel_equiv", ChanMix(2), 0, <<>>) EXCEPT !.emptycli = TRUE]>>
 
 GenConfigShapes(long) == <<
   [Shape("c16.chan", Desc(<<Leaf, ChanRoot, ChanOther>>), [ChanCfg EXCEPT !.alts = ChanAlts(long)]) EXCEPT !.root = "Root"],
   [Shape("c16.chan.unsorted", Desc(<<Leaf, ChanRoot, ChanOther>>), [ChanCfg EXCEPT !.sort = FALSE, !.alts = ChanAlts(FALSE)]) EXCEPT !.root = "Other", !.run = "c16.chan.unsorted"],
   Shape("c16.notypes", Desc(<<Leaf, ChanRoot>>), [BaseCfg EXCEPT !.fault = "notypes"]),
   Shape("c16.notypes.cli", Desc(<<Leaf, ChanRoot>>), [BaseCfg EXCEPT !.fault = "notypes", !.channel = ChanAll("cli")]),
+  Shape("c16.emptytypes", Desc(<<Leaf, ChanRoot>>), [BaseCfg EXCEPT !.fault = "emptytypes"]),
   Shape("c16.missingfile", Desc(<<Leaf, ChanRoot>>), [BaseCfg EXCEPT !.fault = "missingfile", !.channel = ChanAll("cli")]),
   Shape("c16.malformed", Desc(<<Leaf, ChanRoot>>), [BaseCfg EXCEPT !.fault = "malformed", !.channel = ChanAll("cli")]) >>
 
